@@ -1,0 +1,10 @@
+//go:build verif
+
+package rate
+
+// VerifSet forces the state of an estimator: the C09 harness makes the
+// float rate estimate an explicit input of maybeRequest.
+func (e *Estimator) VerifSet(value float64, running bool) {
+	e.value = value
+	e.running = running
+}
